@@ -107,6 +107,14 @@ def hand_universes():
         "kernel": [],
         "progs": [prog([X("xexec", "la::a", "w")]), prog([X("xcall", "la::a", "p")]), prog([X("xexec", "lb::b", "v"), X("xcall", "la::a", "c")]),
                   prog([X("xcall", "lb::b", "u")]), prog([it("call", i=2)], [proc("lp", [op(1), it("loc", k=0)], export=False, locals_=1), proc("lw", [it("exec", i=1)], export=False)])]})
+    # 11 / 12 / 13 a kernel that imports from a library module which itself contains a call / a procref / a syscall
+    # (every module loaded while a kernel is compiled is subject to the kernel's restrictions)
+    for bad in ([it("call", i=1)], [it("ref", i=1)], [X("xcall", "lc::c", "leaf")]):
+        us.append({"mods": [
+            mod("lb::m", [proc("q", [op(1)]), proc("r", bad)]),
+            mod("lc::c", [proc("leaf", [op(2)])])],
+            "kernel": [mod("#sys", [proc("k1", [op(11), X("xexec", "lb::m", "q")])])],
+            "progs": [prog([it("sys", n="k1")]), prog([X("xcall", "lb::m", "r")])]})
     return us
 
 
